@@ -43,6 +43,9 @@ type Script struct {
 	NoCopy    bool   `json:"no_copy"`
 	TimeoutUs int    `json:"timeout_us"`
 	Consumers int    `json:"consumers"`
+	// v1prio: handlers take SlowUs microseconds over items of priority SlowPrio (0 = none)
+	SlowPrio uint `json:"slow_priority,omitempty"`
+	SlowUs   int  `json:"slow_us,omitempty"`
 }
 
 // Result summarises what happened (only for evidence; the oracle is the race detector).
@@ -69,6 +72,20 @@ func (j *jit) wait() {
 	}
 }
 
+// readHandlerLogs reads, without any synchronisation of its own, what the handlers wrote before
+// they released their items. It is only called by a goroutine that has seen the discipline
+// terminate gracefully (GracefulStop returned, Err() closed), which the library orders after the
+// last release - a race reported here means that order was not kept.
+//
+//go:noinline
+func readHandlerLogs(work [][]int) int {
+	n := 0
+	for _, w := range work {
+		n += len(w)
+	}
+	return n
+}
+
 // Execute runs the scenario in real time (bounded by 3 s).
 func Execute(s Script) Result {
 	var res Result
@@ -76,6 +93,7 @@ func Execute(s Script) Result {
 	defer cancelAll()
 	var wg, prod sync.WaitGroup // wg: handlers, consumers, control; prod: producers (ended by cancelAll once wg is done)
 	var delivered atomic.Int64
+	var processed atomic.Int64 // what the readers of the handler logs saw (keeps the reads alive)
 	var roles atomic.Int32
 	spawnIn := func(g *sync.WaitGroup, f func(j *jit)) {
 		g.Add(1)
@@ -134,11 +152,16 @@ func Execute(s Script) Result {
 			res.NewErr = err.Error()
 			break
 		}
+		// every handler keeps a plain log of what it processed; whoever sees the discipline
+		// terminated may read the logs: termination comes after the last release
+		work := make([][]int, s.H+1)
 		for h := 0; h < s.H+1; h++ {
+			h := h
 			spawn(func(j *jit) {
 				for p := range d.Output() {
 					delivered.Add(1)
 					j.wait()
+					work[h] = append(work[h], p.Item)
 					d.Release(p.Priority)
 				}
 			})
@@ -146,6 +169,7 @@ func Execute(s Script) Result {
 		spawn(func(*jit) {
 			select {
 			case <-d.Err():
+				processed.Add(int64(readHandlerLogs(work)))
 			case <-ctx.Done():
 			}
 		})
@@ -218,13 +242,20 @@ func Execute(s Script) Result {
 		}
 		stopped := make(chan struct{})
 		var adds sync.WaitGroup
+		work := make([][]int, s.H+1) // plain per-handler logs, read after a graceful stop has returned
+		readWork := func() { processed.Add(int64(readHandlerLogs(work))) }
 		for h := 0; h < s.H+1; h++ {
+			h := h
 			spawn(func(j *jit) {
 				for {
 					select {
 					case p := <-out:
 						delivered.Add(1)
 						j.wait()
+						if s.SlowUs > 0 && p.Priority == s.SlowPrio {
+							time.Sleep(time.Duration(s.SlowUs) * time.Microsecond)
+						}
+						work[h] = append(work[h], p.Item)
 						select {
 						case fb <- p.Priority:
 						case <-stopped:
@@ -280,6 +311,7 @@ func Execute(s Script) Result {
 					go func() { d.GracefulStop(); close(done) }()
 					select {
 					case <-done:
+						readWork() // everything handed out has been released: the logs are complete
 					case <-ctx.Done():
 						d.Stop()
 					}
@@ -292,6 +324,7 @@ func Execute(s Script) Result {
 				go func() { d.GracefulStop(); close(done) }()
 				select {
 				case <-done:
+					readWork()
 				case <-ctx.Done():
 					d.Stop()
 				}
@@ -505,7 +538,7 @@ func Gen(thorough bool) *rapid.Generator[Script] {
 		s.Rate = rapid.Bool().Draw(t, "rate")
 		k := rapid.IntRange(0, 4).Draw(t, "nj")
 		for i := 0; i < k; i++ {
-			s.JitUs = append(s.JitUs, rapid.SampledFrom([]int{0, 0, 1, 5, 20}).Draw(t, "j"))
+			s.JitUs = append(s.JitUs, rapid.SampledFrom([]int{0, 0, 1, 5, 20, 200, 1000}).Draw(t, "j"))
 		}
 		s.J = uint(rapid.IntRange(1, 8).Draw(t, "J"))
 		s.NoCopy = rapid.Bool().Draw(t, "nocopy")
@@ -517,6 +550,15 @@ func Gen(thorough bool) *rapid.Generator[Script] {
 			at += rapid.IntRange(0, 300).Draw(t, "dt")
 			c := Ctl{AfterUs: at, K: rapid.SampledFrom([]string{"add", "add", "remove", "gstop", "stop", "cancel"}).Draw(t, "ck"), P: uint(rapid.IntRange(1, 5).Draw(t, "cp")), Cap: rapid.SampledFrom([]int{0, 0, 4}).Draw(t, "ccap")}
 			s.Ctl = append(s.Ctl, c)
+			if c.K == "remove" && s.Kind == "v1prio" && rapid.Bool().Draw(t, "slowremoved") {
+				// the handlers are slow with exactly the priority that gets removed
+				s.SlowPrio, s.SlowUs = c.P, rapid.SampledFrom([]int{300, 2000}).Draw(t, "slowus")
+			}
+			if c.K == "remove" && rapid.Bool().Draw(t, "thengstop") {
+				// graceful stop right behind a removal: items of the removed priority may still be with handlers
+				s.Ctl = append(s.Ctl, Ctl{AfterUs: at, K: "gstop"})
+				break
+			}
 			if c.K == "add" && rapid.Bool().Draw(t, "twin") {
 				// a second AddInput for another priority at the same moment, from another goroutine
 				s.Ctl = append(s.Ctl, Ctl{AfterUs: at, K: "add", P: c.P + 5, Cap: c.Cap})
